@@ -77,10 +77,17 @@ def Tr.eval (t : Tr) (args : List Arg) : Except Err (List Arg) :=
 def addUnitsInput (usesQ : Bool) (frameU : List U) (vals : List Rat) : List Arg :=
   if usesQ then qtys vals frameU else vals.map Arg.bare
 
+/-- a quantity is converted to the unit `u`, a bare number is kept (results of a unit-free inverse next to a
+unit-carrying forward transform, or plain arrays from a parameter-less transform) -/
+def stripOrKeep (a : Arg) (u : U) : Except Err Rat :=
+  match a with
+  | .qty v s => toValue v s u
+  | .bare v => .ok v
+
 /-- `_remove_quantity_output`: with a unit-carrying forward transform the results are converted to the
 frame's declared units; otherwise they are taken as they are -/
 def removeQuantityOutput (usesQ : Bool) (frameU : List U) (res : List Arg) : Except Err (List Rat) :=
-  if usesQ then zipM stripTo res frameU
+  if usesQ then zipM stripOrKeep res frameU
   else res.mapM unBare   -- a quantity would otherwise escape through the values interface
 
 /-- `utils.get_values(units, *args)` -/
